@@ -220,6 +220,75 @@ class Dep5GlobStream2(Dep5GlobStream):
 DEP5_HEAD = "Format: https://www.debian.org/doc/packaging-manuals/copyright-format/1.0/\nUpstream-Name: demo\nUpstream-Contact: Jane <jane@example.com>\nSource: https://example.com/demo\n"
 
 
+# ---- the layouts Copyright fields of hand-maintained DEP-5 files really have
+CP_YEARS = ["2019", "2020", "1999", "2015-2018", "2015 - 2018", "2001-2004", "2015, 2017, 2019", "2001-2004,2006", "2003,", "1998-2000,"]
+CP_NAMES = ["Jane Doe", "John Doe", "Jane Doe <jane@example.com>", "John Doe <john.doe@example.org>", "Example Corp.", "Example  Corp.",
+            "Jörg Müller", "FSFE e.V. <https://fsfe.org>", "The \"Demo\" Authors", "O'Brien & Sons", "A\\B Ltd", "山田 太郎",
+            "jane doe", "JANE DOE", "Doe, Jane", "The Demo Team (see AUTHORS)"]
+CP_MARKS = ["", "", "", "© ", "(c) ", "(C)  ", "Copyright (C) ", "Copyright ", "Copyright © ", "Copyright\t", "©"]
+CP_GAPS = [" ", " ", "  ", "   ", "       ", "\t", "\t\t", " \t", "\t ", "\u00a0", "\u00a0 ", " \u00a0 ", "\u2003", "\u3000"]
+CP_ENDS = ["", "", "", " ", "   ", "\t", " \t ", "\u00a0", " \u00a0", "\u2003"]
+CP_INDENTS = [" ", " ", "  ", "    ", "           ", "\t", " \t", "\t\t", "                    "]
+CP_FIRST = [" ", " ", "", "   ", "\t", "\n "]     # what follows `Copyright:` (the last: the value starts on the next line)
+
+
+def cp_layout(rng):
+    """A Copyright field the way DEP-5 files have them: {"c": the lines as typed (blanks at both ends included), "ind": the white
+    space each continuation line starts with, "first": what stands between `Copyright:` and the first line}.  Styles: single-spaced,
+    columns (years padded to one width, holders underneath each other), tabs between year and holder, ragged (every gap, inner blank
+    and line end drawn on its own)."""
+    n = rng.choice([1, 2, 2, 3, 3, 4, 6])
+    style = rng.choice(["plain", "columns", "columns", "tabs", "ragged", "ragged", "ragged"])
+    mark = rng.choice(CP_MARKS)
+    rows = [(rng.choice(CP_MARKS) if style == "ragged" else mark, rng.choice(CP_YEARS), rng.choice(CP_NAMES)) for _ in range(n)]
+    if rng.random() < 0.3 and n >= 2:
+        rows[-1] = rows[0][:2] + (rows[0][2].swapcase() if rng.random() < 0.5 else rows[0][2],)    # (nearly) the same notice again
+    lines = []
+    width = max(len(m + y) for m, y, h in rows) + rng.choice([1, 2, 2, 4])
+    for m, y, h in rows:
+        if style == "plain":
+            l = m + y + " " + h
+        elif style == "columns":
+            l = (m + y).ljust(width) + h
+        elif style == "tabs":
+            l = m + y + rng.choice(["\t", "\t\t", " \t"]) + h.replace(" ", "\t" if rng.random() < 0.3 else " ")
+        else:
+            g = rng.choice(CP_GAPS)
+            l = m + y + g + (h.replace(" ", rng.choice(CP_GAPS)) if rng.random() < 0.5 else h)
+        if rng.random() < 0.1:
+            l = h if rng.random() < 0.5 else h + rng.choice(CP_GAPS) + y       # a holder without / before the years
+        if style != "plain" and rng.random() < 0.35:
+            l += rng.choice(CP_ENDS)
+        if style == "ragged" and rng.random() < 0.25:
+            l = rng.choice(["  ", "\t", "\u00a0", "   \t"]) + l           # blanks beyond the continuation indent
+        lines.append(l)
+    ind = rng.choice(CP_INDENTS)
+    return {"c": lines, "ind": [ind if style != "ragged" else rng.choice(CP_INDENTS) for _ in lines[1:]],
+            "first": rng.choice(CP_FIRST) if rng.random() < 0.5 else " "}
+
+
+def cp_field(p):
+    """the text of a Files paragraph's Copyright field (default: single blank after the colon, eleven blanks of indent)"""
+    c, ind = p["c"], p.get("ind")
+    out = "Copyright:" + p.get("first", " ") + c[0]
+    for k, l in enumerate(c[1:]):
+        out += "\n" + (ind[k] if ind else "           ") + l
+    return out
+
+
+# fixed layouts, one per region (none of them the only case of its kind: the random layouts cover the same ground)
+CP_FIXED = [
+    {"c": ["1999-2004  Alpha Team <team@alpha.example>", "2005       Beta Ltd", "2006-2010  Gamma"], "ind": ["           "] * 2},
+    {"c": ["2001\tTab Separated", "2002\t\tTwo Tabs", "© 2003 \tMixed"], "ind": [" ", "\t"]},
+    {"c": ["2010 Trailing Blanks   ", "2011 Trailing Tab\t", "2012 Trailing NBSP\u00a0"], "ind": [" ", " "], "first": "   "},
+    {"c": ["2013 First", "    2014 Deeper", "\t2015 Deeper Still"], "ind": [" ", " "]},
+    {"c": ["2016\u00a0Non\u00a0Breaking Holder", "2017\u00a0 Two", "2018 \u00a0 Mixed"], "ind": [" ", " "]},
+    {"c": ["2015, 2017, 2019 Comma Years", "2001-2004,2006  Ranges <r@example.org>"], "ind": ["           "], "first": "\n "},
+    {"c": ["Copyright (C)  2019  Doubled  Everywhere"], "first": ""},
+    {"c": ["2020 same holder", "2020 Same Holder", "2020  Same Holder", "2020 Same Holder\u00a0"], "ind": [" ", " ", " "]},
+]
+
+
 class FileStream(Stream):
     name = "file"
     rule = ("generated .reuse/dep5 files (1-4 Files paragraphs, 1-3 patterns each from a plain-glob grammar, a third of the paragraphs with a pattern that is not in normal POSIX form -- ./x, x//y, x/./y, x/, /x, x/../y: dead under dep5 --, multi-line "
@@ -229,7 +298,7 @@ class FileStream(Stream):
             "paragraphs before / after the Files paragraphs, 0-5 files with own information of four kinds (header with both / copyright only / licence only / "
             ".license sibling), 40 % of those with narrow Files paragraphs only so that most paths are matched by none; plus 14 fixed shapes where only the "
             "header paragraph carries Copyright / License; 40 % with a later paragraph repeating the copyright / licence of an earlier one around a different one, plus "
-            "the nested ours / theirs / ours shapes) over a fixed tree of 14 files, some with own headers: `reuse lint --json` before and "
+            "the nested ours / theirs / ours shapes) over a fixed tree of 14 files, some with own headers; 60 percent of the Files paragraphs and half of the header Copyright fields laid out the way hand-maintained DEP-5 files are -- years and holders in columns, tabs, several blanks, trailing blanks / tabs / non-breaking spaces, blanks beyond the continuation indent, U+00A0 / U+2003 / U+3000 inside a line, comma-separated year lists, (c) / U+00A9 / Copyright marks, e-mail addresses, quotes and backslashes, the same holder in two spellings, 1-6 lines, the continuation indent one blank / many / a tab, the value starting right after the colon, after several blanks, after a tab or on the next line -- plus 8 fixed layouts, each alone and above a single-spaced paragraph: `reuse lint --json` before and "
             "after `reuse convert-dep5` compared modulo the source name; order of write/unlink observed; refusal without dep5; "
             "non-trivial = conversion succeeded and at least two files are attributed by different paragraphs")
 
@@ -261,6 +330,8 @@ class FileStream(Stream):
             h["comment"] = rng.choice([["a comment"], ["a comment", "", "Copyright: not a field", "more"]])
         if rng.random() < 0.7:
             h["copyright"] = ["%d Package Holder %d" % (rng.randint(1990, 2024), rng.randint(1, 9)) for _ in range(rng.randint(1, 3))]
+            if rng.random() < 0.5:
+                h["copyright"] = [l.strip() for l in cp_layout(rng)["c"]]
         if rng.random() < 0.7:
             h["license"] = rng.choice(self.LIC)
             h["license_text"] = rng.random() < 0.4
@@ -308,6 +379,8 @@ class FileStream(Stream):
                         gs = [rng.choice(self.ODD_GLOBS)]   # a paragraph that is dead as a whole
                 cp = ["%d Holder %d" % (rng.randint(1990, 2024), rng.randint(1, 9)) for _ in range(rng.randint(1, 3))]
                 paras.append({"g": gs, "c": cp, "l": rng.choice(self.LIC), "comment": rng.random() < 0.3})
+                if rng.random() < 0.6:
+                    paras[-1].update(cp_layout(rng))
                 if rng.random() < 0.25:
                     # the License field holds the licence text after the synopsis (continuation lines, " ." for an empty line),
                     # as the Debian format allows; the synopsis alone is the expression
@@ -317,7 +390,7 @@ class FileStream(Stream):
                 # the order of the paragraphs is part of the meaning (the last match wins)
                 k = rng.randrange(len(paras) - 1)
                 paras.append({"g": rng.sample(self.GLOBS, rng.randint(1, 2)), "c": list(paras[k]["c"]), "l": paras[k]["l"],
-                              "comment": paras[k]["comment"]})
+                              "comment": paras[k]["comment"], **{x: paras[k][x] for x in ("ind", "first") if x in paras[k]}})
             case = {"paras": paras, "own": rng.sample(self.TREE, 3)}
             if rng.random() < 0.2:
                 case["standalone"] = rng.sample(self.LIC, rng.randint(1, 2))     # stand-alone License paragraphs with the full text
@@ -362,6 +435,10 @@ class FileStream(Stream):
         for odd in (["./src/*"], ["src//*.c", "docs/"], ["./*"], ["docs/./*", "./README", "data/./sub/2.json"], ["src/lib/", "/a.txt"]):
             yield {"paras": [dict(us, g=["*"]), dict(them, g=odd)], "own": []}
             yield {"paras": [dict(us, g=["*"]), dict(them, g=odd + ["docs/img/*.png"]), dict(us, g=["*.md"])], "own": ["README"]}
+        # the fixed layouts: alone over the whole tree; above a single-spaced paragraph for part of the tree, with a file that has its own header
+        for k, lay in enumerate(CP_FIXED):
+            yield {"paras": [dict(us, g=["*"], **lay)], "own": []}
+            yield {"paras": [dict(them, g=["*"]), dict(us, g=[["src/*", "docs/*"][k % 2], "data/*.json"], **lay)], "own": [["src/a.c"], ["docs/x.md"]][k % 2]}
         yield {"paras": None, "own": []}  # no dep5 file: must refuse
 
     LICENCE_TEXTS = [["Permission is hereby granted, free of charge, to any person"], ["First paragraph of the text", ".", "Second paragraph, after an empty line"],
@@ -379,8 +456,8 @@ class FileStream(Stream):
             (out if k % 2 else tail).append(t)
         for p in paras:
             lic = p["l"] + "".join("\n " + l for l in p.get("ltext", []))
-            out.append("\nFiles: %s\nCopyright: %s\nLicense: %s\n" % (
-                " ".join(p["g"]), "\n           ".join(p["c"]), self.multiline([p["l"]] + self.LICENCE_TEXT) if p.get("text") else lic))
+            out.append("\nFiles: %s\n%s\nLicense: %s\n" % (
+                " ".join(p["g"]), cp_field(p), self.multiline([p["l"]] + self.LICENCE_TEXT) if p.get("text") else lic))
             if p["comment"]:
                 out[-1] += "Comment: some\n comment\n"
         for l in standalone:
